@@ -157,6 +157,15 @@ def run_stog(c):
                     else:
                         objs[k].center = Point(X.num(cx), X.num(cy))
                     fl[k] = X.rect_cs(X.num(cx), X.num(cy), X.num(w), X.num(h))
+            elif ed[0] == "single":
+                # the module is reduced to ONE of its rectangles (which may carry a branch role from the earlier recognition)
+                k = ed[1] % n
+                keep_obj = objs[k]
+                m.clear_rectangles()
+                m.add_rectangle(keep_obj)
+                rects2 = [list(c["rects"][k])]
+                objs, fl = [keep_obj], [fl[k]]
+                cls.append("reduced-to-one-rectangle")
             else:
                 r2 = ed[1]
                 rects2.append(list(r2))
@@ -275,8 +284,11 @@ def stog_s(draw):
     edit = None
     if mode == "netlist" and draw(st.booleans()):
         via = draw(st.sampled_from(["module", "netlist"]))
-        if draw(st.booleans()):
+        w = draw(_i(0, 4))
+        if w <= 1:
             edit = ["move", draw(_i(0, 8)), draw(_i(-2, 2)), draw(_i(-2, 2)), draw(st.sampled_from(["setter", "inplace"])), via]
+        elif w == 2:
+            edit = ["single", draw(_i(0, 8)), via]
         else:
             edit = ["append", draw(L.int_rect(30, 30, 5, 5)), via]
     others = None
@@ -289,4 +301,4 @@ def stog_s(draw):
 def subchecks():
     return [Sub("lists", run_stog, strategy=stog_s(), n_quick=40000, n_thorough=1000000, fuzz_thorough=20000,
                 required=("stog", "not-stog", "several-trunks", "mut-gap", "mut-overhang", "mut-overlap", "mut-dup-trunk",
-                          "mut-dup-branch", "mut-extra", "direct", "netlist", "duplicates", "edited-then-recognised-again", "moved-through-the-point-object", "module-without-rectangles-listed-before", "far-from-origin"))]
+                          "mut-dup-branch", "mut-extra", "direct", "netlist", "duplicates", "edited-then-recognised-again", "moved-through-the-point-object", "reduced-to-one-rectangle", "module-without-rectangles-listed-before", "far-from-origin"))]
